@@ -653,17 +653,21 @@ Proof.
   - destruct (task_done (set_ready st rd)); [exact H0|].
     eapply qrel_inv; [apply qrel_task_cancel|]. unfold note_ext.
     destruct (in_shield _); keep H0.
+  - destruct (nth_scope (set_ready st rd) k) as [sid|]; [|exact H0].
+    eapply qinv_same2; [|exact (qrel_inv _ _ (qrel_scope_cancel _ sid) H0)]. sm2.
 Qed.
 
 (* ---------------- _run_once *)
 Lemma inject_ok : forall (P : handle -> Prop) it c rd nh,
-  Forall P rd -> (forall h, h_kind h = HExt -> P h) -> Forall P (fst (inject it c rd nh)).
+  Forall P rd -> (forall h, (forall j, h_kind h <> HDeliver j) -> P h) -> Forall P (fst (inject it c rd nh)).
 Proof.
-  induction c as [|[n front] c IH]; intros rd nh Hr HP; cbn [inject]; [exact Hr|].
+  induction c as [|[[n front] act] c IH]; intros rd nh Hr HP; cbn [inject]; [exact Hr|].
   destruct (n =? it); [|apply IH; assumption].
+  assert (Hn : P (mkH nh (match act with 0 => HExt | S k => HActor k end) false))
+    by (apply HP; intros j; destruct act; discriminate).
   apply IH; [|exact HP]. destruct front.
-  - constructor; [apply HP; reflexivity|exact Hr].
-  - apply Forall_app; split; [exact Hr|constructor; [apply HP; reflexivity|constructor]].
+  - constructor; [exact Hn|exact Hr].
+  - apply Forall_app; split; [exact Hr|constructor; [exact Hn|constructor]].
 Qed.
 
 Lemma qinv_begin_iter : forall st, qinv st -> qinv (begin_iter st).
@@ -671,7 +675,7 @@ Proof.
   intros st [Qr Qh Qc Ql Qf]. unfold begin_iter.
   set (st0 := set_iter st (S (iter st))).
   pose proof (inject_ok (hk_ok st) (S (iter st)) (ctrl st0) (ready st0) (nexth st0) Qr
-                ltac:(intros h Hk k Hk'; congruence)) as Hinj.
+                ltac:(intros h Hk k Hk'; exfalso; exact (Hk k Hk'))) as Hinj.
   destruct (inject (S (iter st)) (ctrl st0) (ready st0) (nexth st0)) as [rd nh]. cbn [fst] in Hinj.
   pose proof (drop_cancelled_heads_ok (length (heap (set_nexth (set_ready st0 rd) nh)))
                 (heap (set_nexth (set_ready st0 rd) nh)) Qh) as Hdrop.
